@@ -647,10 +647,10 @@ pub fn gen_scale(rng: &mut Rng, thorough: bool) -> Case {
     let plan = SCALE_PLAN.get_or_init(|| {
         // model cost: a refill is a handful of passes over the whole buffer list
         let dims = [
-            ScaleDim::new(10, 20, 23, 16, 1).rest_big(),
             ScaleDim::new(10, 20, 22, 16, 1).rest_big(),
             ScaleDim::new(10, 20, 22, 16, 1).rest_big(),
-            ScaleDim::new(10, 20, 22, 16, 1).rest_big(),
+            ScaleDim::new(10, 20, 21, 16, 1).rest_big(),
+            ScaleDim::new(10, 20, 21, 16, 1).rest_big(),
             ScaleDim::new(10, 20, 22, 16, 1).rest_big(),
             ScaleDim::new(10, 20, 21, 11, 1).model_max((1 << 12) + 64, (1 << 13) + 64).rest_big(),
         ];
